@@ -273,6 +273,21 @@ func main() {
 			}
 			return &rtp.Packet{Header: rtp.Header{Version: 2, SequenceNumber: seq}, Payload: pl}
 		}, 0, bound)
+		// the same attack repeated: every time the cap has fired a new start fragment opens another run of middle
+		// fragments; the cap must fire again at the same size (peak judged at every 32nd packet), and a small marked
+		// frame at the end of each cycle must still decode without a panic
+		Format.HostileStream(ctx, "repeated-runs-of-middle-fragments-across-the-cap", ctx.Budget(6200, 40000), func(i int, seq uint16) *rtp.Packet {
+			k := i % 1240 // 1240 x 1000 bytes > 1 MiB per cycle
+			pl := make([]byte, 1004)
+			switch {
+			case k == 0:
+				pl[2] = 0x10 // B: start fragment
+			case k == 1239:
+				// a small complete slice (B=E=1) with the marker: a frame of its own
+				return &rtp.Packet{Header: rtp.Header{Version: 2, SequenceNumber: seq, Marker: true, Timestamp: uint32(i)}, Payload: []byte{0, 0, 0x18, 0, 1, 2, 3}}
+			}
+			return &rtp.Packet{Header: rtp.Header{Version: 2, SequenceNumber: seq}, Payload: pl}
+		}, 0, bound, 1<<20)
 		// F6: complete (b=e=1) but empty slices without marker pass the byte cap and are appended forever
 		n := bound + 3000
 		// the decoder keeps payload sub-slices, never the packet: one packet object serves all calls
